@@ -200,7 +200,8 @@ class ColorEngine(VectorEngine):
         return [inp["ctor"], inp["form"], inp["args"], inp["alpha"], inp.get("amt"), inp.get("fn"), inp.get("style")]
 
     # ---- rendering ---------------------------------------------------------
-    def render(self, inp):
+    def render(self, inp, only=None):
+        """only: (C32) restrict the stylesheet to these law / move names (used to isolate a law that raises an error)"""
         expr = render_color(inp)
         if self.kind == "c31":
             body = ["  ok: type-of($c);\n", chan_decls(),
@@ -218,9 +219,11 @@ class ColorEngine(VectorEngine):
             u = dec(inp["amt"] * 10, 6)
             body = ["  ok: type-of($c);\n", chan_decls()]
             for n, e in EQ_LAWS:
-                body.append("  $v: %s;\n  e-%s: $v == $c; f-%s: rgbf($v) == rgbf($c);\n" % (e, n, n))
+                if only is None or n in only:
+                    body.append("  $v: %s;\n  e-%s: $v == $c; f-%s: rgbf($v) == rgbf($c);\n" % (e, n, n))
             for n, e, _ in MOVES:
-                body.append("  m-%s: %s;\n" % (n, e))
+                if only is None or n in only:
+                    body.append("  m-%s: %s;\n" % (n, e))
             src = PRELUDE + "$c: %s;\n$p: %s;\n$u: %s;\na {\n%s}\n" % (expr, p, u, "".join(body))
             return dict(api="compile_scss", src=src, style="expanded")
         if self.kind == "c33":
@@ -264,6 +267,19 @@ class ColorEngine(VectorEngine):
             o["tok"] = [ord(ch) for ch in d.get("t", "")] if ok else []
         return o
 
+    def project_isolated(self, inp, rs):
+        """C32: per-law results; a law that raised an error is reported as -2"""
+        d = decls(rs["None"].get("out"), "expanded")
+        o = dict(st="ok", obs=chan_obs(d), eq={}, mv={})
+        for n, _ in EQ_LAWS:
+            r = rs[n]
+            dd = decls(r.get("out"), "expanded") if r.get("status") == "ok" else None
+            o["eq"][n] = [truth(dd, "e-" + n), truth(dd, "f-" + n)] if dd is not None else [-2, -2]
+        for n, _, k in MOVES:
+            r = rs[n]
+            o["mv"][n] = fixed(decls(r.get("out"), "expanded").get("m-" + n, "?"), k) if r.get("status") == "ok" else BAD
+        return o
+
     def sample(self, inp, case, obs):
         return dict(input={k: inp[k] for k in ("ctor", "form", "args", "alpha", "amt", "fn", "style") if k in inp},
                     rendered=render_color(inp), observed={k: obs[k] for k in obs if k in ("st", "obs", "tok")})
@@ -286,11 +302,29 @@ class ColorEngine(VectorEngine):
                 c2.append(c)
             r2 = ctx.execute(c2, **self.exec_kw)
             ctor_res = {i: r2[f"{tag}-ctor#{i}"] for i in again}
+        isolated = {}
+        if self.kind == "c32":
+            # a law raised an error although the colour exists: evaluate every law in its own stylesheet
+            names = [n for n, _ in EQ_LAWS] + [n for n, _, _ in MOVES]
+            c3 = []
+            for i in again:
+                cr = ctor_res[i]
+                if cr.get("status") == "ok" and decls(cr.get("out"), "expanded").get("ok") == "color":
+                    for n in [None] + names:
+                        c = self.render(inputs[i], only=[] if n is None else [n])
+                        c["id"] = f"{tag}-law#{i}#{n}"
+                        c3.append(c)
+            r3 = ctx.execute(c3, **self.exec_kw) if c3 else {}
+            for c in c3:
+                _, i, n = c["id"].rsplit("#", 2)
+                isolated.setdefault(int(i), {})[n] = r3[c["id"]]
         devs = ctx.open_devs()
         events = []
         for i, inp in enumerate(inputs):
             r = res[cases[i]["id"]]
             o = self.project(inp, r, ctor_res.get(i))
+            if i in isolated and isolated[i]["None"].get("status") == "ok":
+                o = self.project_isolated(inp, isolated[i])
             e = dict(p=self.kind, case=i, devs=devs, ctor=inp["ctor"], form=inp["form"], args=inp["args"], alpha=inp["alpha"],
                      amt=inp.get("amt", 0), fn=inp.get("fn", "id"), style=inp.get("style", "expanded"),
                      hasp=1 if "partners" in inp else 0)
